@@ -5,11 +5,18 @@ import exprk
 def run(ctx):
     ctx.prove("C02")
     q = ctx.tier == "quick"
-    exprk.run_k(ctx, "C02", 180 if q else 10000, 0,
-                kinds=["clause", "clause", "clause", "clause", "elem", "binary"], tag="c02")
-    ctx.cov["rule"] = ("scripts of 1-4 statements dominated by clause chains of length 1-3 (filter, calc, keep, drop, rename, sub) applied to inputs and to "
-                       "results of other clauses/operators; conditions and calc expressions of depth ≤ 3 incl. null conditions, overwritten measures, "
-                       "new measures; distinct = (script, data)")
+    exprk.run_k(ctx, "C02", 150 if q else 10000, 15 if q else 400,
+                kinds=["clause", "clause", "clause", "clause", "elem", "binary", "setop"], tag="c02",
+                nested_kinds=["clause", "clause", "clause", "binary", "setop", "elem"],
+                directed={"chain": 40 if q else 1500, "setctx": 10 if q else 300},
+                exclude_flags=("measure-renaming-operator",))
+    ctx.cov["rule"] = ("scripts of 1-4 statements dominated by clause chains of length 1-4 IN ONE STATEMENT (filter, calc, keep, drop, rename, sub) applied "
+                       "to inputs and to results of other clauses/operators; later clauses of a chain are biased towards the components an earlier calc / "
+                       "rename of the same chain created (rename it, keep it, filter on it, compute from it, sub in between); conditions and calc "
+                       "expressions of depth ≤ 3 incl. null conditions, overwritten measures, NEW measures; a nested stream (clauses applied to "
+                       "dataset∘dataset / set-operator results in one statement) and the directed families chain (create, then rename/keep/filter/calc) and "
+                       "setctx (clauses on set-operator results); single-statement cases whose operator renames its measure (bool_var…) are left to C01, "
+                       "where that engine defect is recorded; distinct = (script, data)")
     ctx.oblige("K: engine = run_script (Model/Expr.v) on every generated case, or the disagreement is reported", True)
     ctx.trusted.append("DuckDB executes the emitted SQL (observed only); same value bounds as C01")
 
